@@ -131,7 +131,12 @@ impl Cache for MemoryStore {
     fn flush(&self, header: CacheMetaData) {
         if header.time_to_live > 0 {
             self.memory.alter_all(|_key, mut value| {
-                value.header.time_to_live = header.time_to_live;
+                // a delayed flush may shorten an item's life, never prolong it
+                if value.header.time_to_live == 0
+                    || value.header.time_to_live > header.time_to_live
+                {
+                    value.header.time_to_live = header.time_to_live;
+                }
                 value
             });
         } else {
